@@ -42,6 +42,8 @@ type c18Case struct {
 	// LBLag: for a moment after the loss the balancer still accepts connections
 	// for the dead node and closes them (health-check lag) before it fails over
 	LBLag bool `json:"balancer_lag,omitempty"`
+	// Shared: endpoint e1 has two listeners on the node that is lost
+	Shared bool `json:"two_listeners_of_one_endpoint,omitempty"`
 }
 
 func freePorts(n int) []string {
@@ -304,11 +306,21 @@ func runC18(c c18Case) (sig, msg string) {
 			}
 			lns = append(lns, l)
 		}
+		wantE1 := 1
+		if c.Shared {
+			l, err := e4.Listen(context.Background(), balancer.ln.Addr().String(), "e1", "l-e1", e4.ListenOpts{
+				Token: c16Token(0), MinBackoff: 20 * time.Millisecond, MaxBackoff: 200 * time.Millisecond})
+			if err != nil {
+				return "listen-failed", desc + ": " + err.Error()
+			}
+			lns = append(lns, l)
+			wantE1 = 2
+		}
 		// attached to the node that will be lost and visible from the survivors
 		if !e4.WaitFor(30*time.Second, func() bool {
 			for _, s := range survivors {
 				nd, ok := s.State().Node("lostnode")
-				if !ok || nd.Endpoints["e1"] != 1 || nd.Endpoints["e2"] != 1 {
+				if !ok || nd.Endpoints["e1"] != wantE1 || nd.Endpoints["e2"] != 1 {
 					return false
 				}
 			}
@@ -384,6 +396,22 @@ func runC18(c c18Case) (sig, msg string) {
 	}) {
 		return "lost-node-still-active", fmt.Sprintf("%s: 60s after the loss a survivor still lists the node as active: %s | %s", desc, e4.ViewOf(survivors[0]), e4.ViewOf(survivors[1]))
 	}
+	if c.Mode == "graceful" && c.Shared {
+		// "stops advertising its upstreams": every connection of the stopped node
+		// is closed, so whatever the survivors make of its status they must end
+		// up listing no endpoint for it (it withdrew them while it was still
+		// gossiping; nothing can re-add them)
+		if !e4.WaitFor(60*time.Second, func() bool {
+			for _, s := range survivors {
+				if nd, ok := s.State().Node("lostnode"); ok && len(nd.Endpoints) != 0 {
+					return false
+				}
+			}
+			return true
+		}) {
+			return "stopped-node-still-advertising", fmt.Sprintf("%s: 60s after the node shut down gracefully (all its upstream connections closed) the survivors still list endpoints for it: %s | %s", desc, e4.ViewOf(survivors[0]), e4.ViewOf(survivors[1]))
+		}
+	}
 	if c.Mode == "graceful" {
 		for _, s := range survivors {
 			if nd, ok := s.State().Node("lostnode"); ok && nd.Status != wantStatus {
@@ -452,6 +480,9 @@ func init() {
 					}
 					if ph == "upstreams" {
 						cases = append(cases, c18Case{LostIsSeed: seed, Phase: ph, Mode: m, LBLag: true})
+					}
+					if (ph == "upstreams" || ph == "in-flight") && !seed {
+						cases = append(cases, c18Case{LostIsSeed: seed, Phase: ph, Mode: m, Shared: true})
 					}
 					if m == "graceful" && (ph == "upstreams" || ph == "idle") && !seed {
 						cases = append(cases, c18Case{LostIsSeed: seed, Phase: ph, Mode: m, Rebalance: true})
@@ -523,7 +554,7 @@ func init() {
 		evals += lc
 		run.Set("evaluations", evals)
 		run.Set("distinct_nontrivial", distinctCases)
-		run.Set("rule", "3-node cluster (two in-process survivors + one `piko server` subprocess built from the current tree) behind a TCP load balancer that attaches listeners to the node that will be lost; lost node {join seed, later joiner} x phase {idle, upstreams connected, 10 requests in flight, second signal mid-shutdown} x mode {SIGTERM, SIGKILL}; each case is distinct; both survivors are used as entry nodes")
+		run.Set("rule", "3-node cluster (two in-process survivors + one `piko server` subprocess built from the current tree) behind a TCP load balancer that attaches listeners to the node that will be lost; lost node {join seed, later joiner} x phase {idle, upstreams connected, 10 requests in flight, second signal mid-shutdown} x mode {SIGTERM, SIGKILL}, plus (upstreams connected, in flight) x mode with two listeners of one endpoint on the lost node; each case is distinct; both survivors are used as entry nodes")
 		run.Set("exhaustive", run.Thorough())
 		run.Assume("the kill is delivered at phase boundaries, not at every instruction; schedules are free-running; liveness claims poll up to 60s and a miss is re-run twice before it is reported")
 		fmt.Printf("  C18: cases=%d\n", evals)
